@@ -518,15 +518,16 @@ func c16Engine(c *c16Case, env *fw.Env, v *fw.V) {
 	s := g.Add(gen.Start, "start", "")
 	t := g.Add(gen.Task, "T", "")
 	t.Writes = []string{"r"}
-	t.Outputs = []string{"o"}
+	t.Outputs = []string{"o", "named=DataObject_named", "total=Property_total"}
 	n := g.Add(gen.Task, "N", "")
 	n.Props = []gen.PropItem{{Name: "r"}, {Name: "x"}}
-	n.Inputs = []string{"o", "wo"}
+	n.Inputs = []string{"o", "wo", "named=DataObject_named", "total=Property_total"}
 	e := g.Add(gen.End, "end", "")
 	g.Connect(s, t, nil)
 	g.Connect(t, n, nil)
 	g.Connect(n, e, nil)
-	g.Objects = []gen.DataObject{{ID: "wo", Name: "wo"}}
+	// item-aware elements whose id differs from their name: a data object and a property of the process
+	g.Objects = []gen.DataObject{{ID: "wo", Name: "wo"}, {ID: "DataObject_named", Name: "named"}, {ID: "Property_total", Name: "total", Prop: true}}
 	defs, _, err := step.Parse(g)
 	if err != nil {
 		v.Inconclusive("parse", "%v", err)
@@ -577,6 +578,8 @@ func c16Engine(c *c16Case, env *fw.Env, v *fw.V) {
 				in.Answer(reqs[0], bpmn.DoWithResults(map[string]any{"r": val.V}))
 			case "objects":
 				in.Answer(reqs[0], bpmn.DoWithObjects(map[string]any{"o": val.V}))
+			case "named", "total":
+				in.Answer(reqs[0], bpmn.DoWithObjects(map[string]any{c.Route: val.V}))
 			default:
 				in.Answer(reqs[0], bpmn.DoWithResults(nil))
 			}
@@ -635,6 +638,14 @@ func c16Engine(c *c16Case, env *fw.Env, v *fw.V) {
 					}
 					return it.Value(), it.Type(), true
 				})
+			case "named", "total":
+				// written by name, declared by id: a data object and a process property whose id differs from the name
+				it, ok := next[0].Trace.GetDataObjects()[c.Route]
+				if !ok || it == nil {
+					v.Violate("value-lost", c.Route+"/"+kindName(val.V), "data output %q (%s %T, target declared by id) not visible to the next task's data input", c.Route, val.Name, val.V)
+					return
+				}
+				c16CheckRead(v, "DoWithObjects-"+c.Route, val, it.Type(), it.Value())
 			case "withobjects":
 				it, ok := next[0].Trace.GetDataObjects()["wo"]
 				if !ok || it == nil {
@@ -827,7 +838,7 @@ func c16Cases(tier string, seed uint64) []fw.Case {
 		c := c16Case{Kind: "typed", Type: ty, Name: "typed/" + ty}
 		cs = append(cs, fw.MkCase("typed", &c))
 	}
-	for _, route := range []string{"variables", "results", "objects", "withobjects"} {
+	for _, route := range []string{"variables", "results", "objects", "withobjects", "named", "total"} {
 		for from := 0; from < n; from += 4 {
 			c := c16Case{Kind: "engine", Route: route, From: from, To: from + 4}
 			c.Name = fmt.Sprintf("engine/%s/%d", route, from)
